@@ -4139,7 +4139,7 @@ def _make_tied_note_id(prev_id):
             return "-".join(["{}a".format(prev_id_p1)] + prev_id_parts[1:])
         else:
             return "-".join(
-                ["{}{}".format(prev_id_p1[:-1], chr(ord(prev_id[-1]) + 1))]
+                ["{}{}".format(prev_id_p1[:-1], chr(ord(prev_id_p1[-1]) + 1))]
                 + prev_id_parts[1:]
             )
     else:
